@@ -1,7 +1,7 @@
 (* TypedFull.v — C13 for the rows of the engine model, for every query that meets the hypotheses of
    the whole-query refinement theorem (SimFull.interpret_spec / WfCheck.spec_hyps). *)
 From TF Require Import Values Graph Exec Sem ExecLemmas Sim SimRec SimComp SimOut SimTop TyProofs WfIR WfIRProofs
-     SimGen SimFull WfCheck.
+     SimGen SimFull WfCheck SimFinal.
 Local Open Scope string_scope.
 Local Open Scope list_scope.
 
@@ -16,6 +16,25 @@ Proof.
   intros Hind Hconf Hwf Hh Hot Hi Hl Hrows row Hrow.
   destruct (spec_hyps_sound args q' Hh) as (H1 & H2 & H3).
   pose proof (interpret_spec re g args Hind q' rows H1 H2 H3 Hrows) as HF2.
+  destruct (Forall2_in_l _ _ _ _ HF2 Hrow) as (srow & Hs & Heq).
+  destruct (sem_rows_carry_indexed_outputs re g args q ix q' Hi Hl srow Hs) as (_ & Hk).
+  split.
+  - intros n. rewrite (Heq n). apply Hk.
+  - intros n t v Hin. unfold row_get. rewrite (Heq n).
+    exact (row_typed re g args S q ix q' Hconf Hwf Hot Hi Hl srow Hs n t v Hin).
+Qed.
+
+(* the same with the unrestricted refinement theorem (folds truncated by take(min) included) *)
+Theorem engine_rows_typed_all re g args S q ix q' rows :
+  ty_indep g -> conforms S g -> wf_ir q = true -> refine_hyps args q' = true -> outputs_typed S (rq_comp q) ->
+  index_query q = Ok (inr ix) -> lower_query q = Ok q' ->
+  interpret re g args q' = Ok rows ->
+  forall row, In row rows ->
+    (forall n, lookup_str n row <> None <-> In n (map fst (ix_outputs ix))) /\
+    forall n t v, In (n, (t, v)) (ix_outputs ix) -> ty_valid t (row_get row n) = Ok true.
+Proof.
+  intros Hind Hconf Hwf Hh Hot Hi Hl Hrows row Hrow.
+  pose proof (interpret_refines_sem_checked re g args q' rows Hind Hh Hrows) as HF2.
   destruct (Forall2_in_l _ _ _ _ HF2 Hrow) as (srow & Hs & Heq).
   destruct (sem_rows_carry_indexed_outputs re g args q ix q' Hi Hl srow Hs) as (_ & Hk).
   split.
